@@ -1,5 +1,6 @@
 (* C05 — equal node hash implies equal computation (no false cache hit). *)
 From Connectome Require Import Values Attrs VM Edges EdgesGen HashSound HashFacts SpecEq EqFacts Total GraphHashModel StaticHash MakerFacts Examples.
+From Connectome Require ColStore ColumnsGen Columns ColumnsFacts EqFacts.
 Local Open Scope list_scope.
 
 (* The value of a node is the inverse reading of its node hash: for every graph without Silent arguments, every
@@ -103,3 +104,26 @@ Proof.
   split; [reflexivity|]. split; [eexists; eexists; split; vm_compute; reflexivity|]. split; cbn; discriminate.
 Qed.
 Print Assumptions C05_example.
+
+(* ---------- a shard of CacheColumns is keyed like a function application (finding F11) ----------
+   CachedColumn.evaluate keys a shard by ApplyHash(tuple, hashes of its entries) - the node hash of the field
+   `tuple(entry)` when the shard has one entry.  Witness (over the REGENERATED evaluate): a field b = tuple(a) cached
+   by CacheToDisk and the field a cached by CacheColumns over the same folders, a dataset with one id.  Whichever layer
+   writes first, the other one reads the wrong entry: equal node hashes, different computations.  The stores satisfy
+   the invariant of C04_column_caches_are_transparent and all its other assumptions hold (f11_sound): only the
+   disjointness assumption fails.  The check reports this as a KNOWN-FINDING, replayed on the real layers. *)
+Theorem C05_shard_key_collides_with_entry_key_refuted :
+  ColumnsFacts.Inv ColumnsFacts.f11_h ColumnsFacts.f11_v ColumnsFacts.f11_disk_first /\ ColumnsFacts.exact_key pyeq ColumnsFacts.f11_key /\
+  (exists e st' ev, ColumnsFacts.py_request (fun l => l) (fun c k => Some (ColumnsFacts.f11_h c k)) (fun c k => Some (ColumnsFacts.f11_v c k))
+                      0 None ColumnsFacts.f11_key [ColumnsFacts.f11_key] ColumnsFacts.f11_disk_first = (ColStore.CErr (EInternal e), st', ev)) /\
+  (exists r st' ev x, ColumnsFacts.py_request (fun l => l) (fun c k => Some (ColumnsFacts.f11_h c k)) (fun c k => Some (ColumnsFacts.f11_v c k))
+                        0 None ColumnsFacts.f11_key [ColumnsFacts.f11_key] ColStore.colstore0 = (r, st', ev)
+                      /\ ColStore.disk_get heqb st' (ColumnsFacts.f11_h 1 ColumnsFacts.f11_key) = Some x /\ x <> ColumnsFacts.f11_v 1 ColumnsFacts.f11_key).
+Proof. exact ColumnsFacts.shard_key_collides_with_entry_key. Qed.
+Print Assumptions C05_shard_key_collides_with_entry_key_refuted.
+
+Theorem C05_f11_witness_meets_the_other_assumptions :
+  forall c k c' k', hpyeq (ColumnsFacts.f11_h c k) (ColumnsFacts.f11_h c' k') = true -> EqFacts.nonum k' = true ->
+  ColumnsFacts.f11_v c k = ColumnsFacts.f11_v c' k'.
+Proof. exact ColumnsFacts.f11_sound. Qed.
+Print Assumptions C05_f11_witness_meets_the_other_assumptions.
